@@ -319,8 +319,8 @@ def _(g, r):
 
 @op('undeclared-entity')
 def _(g, r):
-    if 'pe-decl' in g['cx'].tags:
-        return None          # with a PE reference in the DTD an undeclared entity is a validity matter only
+    if 'pe-decl' in g['cx'].tags or g['cx'].external:
+        return None          # with a PE reference or an external subset an undeclared entity is a validity matter only
     p = _in_text_pos(g, r)
     if p is None:
         return None
